@@ -201,6 +201,19 @@ CHECKS = {
             "breakpoint; no hang (10 s watchdog).",
             "Known finding: module-level statements stop twice (the repository's own tests encode it).",
             "DESIGN.md#c18"),
+    "C19": ("exploration",
+            "bounded-exhaustive documents x positions x notification histories driven through the real server over an in-memory connection; scope oracle = executing the same document",
+            "528 (quick) / 660 documents enumerating every combination of bindings of one name across 5 nested scopes (module, def "
+            "parameter/local before/after use, nested def, comprehension, lambda) x text variants with BMP / astral characters and "
+            "CRLF placed before identifiers: go-to-definition at both ends of every use must land on an identifier of that name "
+            "(sliced by UTF-16) bound in the scope the executed program actually read (each binding carries its scope tag, each "
+            "use emits what it reads). Every (line, character) incl. past line ends and past the last line x {definition, hover, "
+            "completion}; all sequences of <=3 notifications from {open valid/invalid, change valid/invalid/empty, close} with the "
+            "three requests after each; a two-document load case; diagnostics ranges must slice to the name they mention. One "
+            "response per request within 10 s, no server panic, all ranges inside the current document under UTF-16; error positions "
+            "of the evaluated documents equal an independent line/character computation.",
+            "Known finding: the server's position encoding is bytes in / code points out rather than UTF-16 (non-ASCII lines only).",
+            "DESIGN.md#c19"),
 }
 
 NOT_YET = {
